@@ -302,8 +302,8 @@ package jsonrpc2
 //@ func (*Connection).Cancel [C04]
 //@   nopanic
 //@   track req.cancel as cancelOne
-//@   callee req.cancel: modifies *
+//@   callee req.cancel: modifies extern
 //@   requires c != nil
-//@   modifies *
+//@   modifies extern
 //@   ensures @at-most-one-request-is-cancelled calls(cancelOne) <= 1
 //@   assert at call req.cancel: @only-the-request-that-was-looked-up local(req) != nil
